@@ -52,3 +52,22 @@ Proof. intros ms W. apply proxy_up; auto. Qed.
    the concatenation of the master's frames and decodes them for any chunking of its reads (C08) *)
 Theorem proxy_down : forall ms o, Forall msg_wf ms -> decode (concat (map enc ms)) o = (ms, CleanEOF).
 Proof. exact decode_roundtrip. Qed.
+
+(* every control request gets the answer to ITSELF: the queue of answers is empty between calls *)
+Lemma ctl_call_ok : forall c code s e, every_request_awaits_its_answer c = true -> pending s = [] ->
+  pending (ctl_call c code s e) = [] /\ returned (ctl_call c code s e) = returned s ++ [(e, answer_of e code)].
+Proof. intros c code s e C P. unfold ctl_call. rewrite P, C. cbn. destruct e; cbn; auto. Qed.
+Theorem control_answers_match : forall c code es, every_request_awaits_its_answer c = true ->
+  pending (ctl_run c code es) = [] /\ returned (ctl_run c code es) = map (fun e => (e, answer_of e code)) es.
+Proof.
+  intros c code es C. unfold ctl_run.
+  assert (G : forall s, pending s = [] -> pending (fold_left (ctl_call c code) es s) = [] /\
+                        returned (fold_left (ctl_call c code) es s) = returned s ++ map (fun e => (e, answer_of e code)) es).
+  { induction es as [|e r IH]; intros s P; cbn [fold_left map]; [rewrite app_nil_r; auto|].
+    destruct (ctl_call_ok c code s e C P) as [P' R']. destruct (IH _ P') as [A B]. split; auto. rewrite B, R', <- app_assoc. reflexivity. }
+  destruct (G {| pending := []; returned := [] |} eq_refl) as [A B]. split; auto.
+Qed.
+(* what happens otherwise: after a close_write that does not wait, wait() returns the stale acknowledgement *)
+Example control_desync_refuted :
+  returned (ctl_run {| every_request_awaits_its_answer := false |} 0 [EvCloseWrite; EvWait]) = [(EvWait, ANone)].
+Proof. reflexivity. Qed.
